@@ -78,7 +78,14 @@ func (s *server) HandleRequest(ctx *types.HttpContext) {
 		if sid := ctx.Query().Peek("sid"); sid != "" {
 			server_log.Debug("setting new request for existing client")
 			if socket, ok := s.Clients().Load(sid); ok {
-				socket.Transport().OnRequest(ctx)
+				if transport := socket.Transport(); transport.HandlesUpgrades() {
+					// a websocket/webtransport session takes no plain HTTP requests: its
+					// transport would neither read nor answer this one, and the handler
+					// (with the connection) would hang for ever
+					s.emitAbortRequest(ctx, BAD_REQUEST, map[string]any{"name": "TRANSPORT_MISMATCH", "transport": transport.Name()})
+				} else {
+					transport.OnRequest(ctx)
+				}
 			} else {
 				abortRequest(ctx, UNKNOWN_SID, map[string]any{"sid": sid})
 			}
